@@ -3,7 +3,7 @@
 import json, subprocess, sys
 
 HOOK_COMMITS = ["f2c46aac", "b1a8fb5b", "bbcc6d5a"]
-FIX_COMMITS = ["3d29a15d", "ccb20ab7", "6a4c8968", "8f04a981"]
+FIX_COMMITS = ["3d29a15d", "ccb20ab7", "6a4c8968", "8f04a981"]  # + the run_block_generator SIMPLE_GENERATOR fix, see known_findings.json
 
 # id -> (engine, level category, technique, level text, level note, design ref)
 CHECKS = {
@@ -57,6 +57,11 @@ CHECKS = {
          "Every tree-hash routine (tree_hash, tree_hash_cached, tree_hash_from_bytes on plain and back-reference serialisations, TreeHasher, curry_tree_hash/CurriedProgram, and the puzzle hashes / coin ids reported by the five block consumers) returns the definitional SHA-256 tree hash for every atom in both internal representations over a 211-leaf alphabet, every small-integer atom below 2^20 (quick) / 2^26 (thorough), every DAG of <=4/5 pairs over 3-4 leaf kinds, 10^5-deep and 10^5-long lists, 2^20-leaf DAGs and every currying of <=4 arguments over 8/12 values. For the shared memo cache the complete state graph is explored: every history of visit_tree / tree_hash_cached calls of any length on every DAG of <=3 (quick) / <=4 (thorough) pairs and on a fixed 9-pair DAG with pairs allocated between calls (BFS to fixpoint; 2.6e5 / 3.2e6 states), every transition's hash and every cache entry checked against the reference; larger DAGs by bounded sequences.",
          "trusts: sha2 crate and mc::sx reference; clvmr 0.17.7 allocator and serialisers (leaf bytes read back, compressed forms re-parsed before blaming /repo); hook H2 TreeCache::verif_state as exact state key; one append-only allocator per cache",
          "DESIGN.md#c17"),
+ "C07": ("E", "exploration",
+         "bounded-exhaustive differential enumeration of generator programs (families + every prefix + every single-byte substitution) x block references x flag subsets x cost limits through both execution paths",
+         "Every program of the stated families (quoted spend lists: 2 puzzle kinds x ~108 condition letters, 8 failing puzzles, two-spend/double-spend/empty lists, 15 spend-tuple defects x terminators x output extension; 11 procedural templates incl. data read from block references 1 and 2; each plain and back-reference compressed) x 4 block reference lists x all 32 subsets of {MEMPOOL_MODE, COST_CONDITIONS, SIMPLE_GENERATOR, LIMIT_SPENDS, INTERNED_GENERATOR} x limits {max block, c2, c2-1, c1, c1-1}, plus every proper prefix and every single-byte substitution by {00,01,7f,80,fe,ff} of every base program <=200 bytes (bound 2 on tiny programs) is run through run_block_generator and run_block_generator2: same verdict, identical canonical summary and condition cost, native cost <= legacy cost; a legacy-only rejection is accepted only for cost / allocator / stack-limit errors. 1.4M runs quick.",
+         "trusts: nothing beyond the comparison (both sides are the real code); known finding: under INTERNED_GENERATOR the size term makes the native path dearer (recorded, all other agreement still checked with the size term removed)",
+         "DESIGN.md#c07"),
 }
 
 PENDING_REASON = "check not built yet in this round (planned: see DESIGN.md section for this property); not claimed until it runs"
